@@ -189,8 +189,8 @@ def step (op : String) (gs : List (List Int)) : String :=
   | "build", [[gid, mi]] =>
     match genOf gid, modeOf mi with
     | some g, some m =>
-      let (a, b, c) := g.accepts
-      okG [[b2i a, b2i b, b2i c, modeIdx (g.effectiveMode m)]]
+      let (a, b, _) := g.accepts
+      okG [[b2i a, b2i b, b2i (g.effectiveMode m == m), modeIdx (g.effectiveMode m), b2i g.acceptsCropCorner]]
     | _, _ => "err BadOp"
   | _, _ => "err BadOp"
 
